@@ -5,6 +5,7 @@ import CE.Rules.Machine
 import CE.Rules.Table
 import CE.Chars.Chars
 import CE.Rules.Spec
+import CE.Rules.Measure
 /-
   Line-protocol driver: executes the model's definitions on the operations the Go
   harness ran on the implementation.  Input line:  kind \t id \t op \t arg... \t => \t expected
@@ -110,7 +111,8 @@ def wfRel (args : List String) : String :=
           | k :: cls =>
             let cls := String.intercalate ":" cls
             match k.toNat?, v.structural with
-            | some k, some (some j) => k == j || (k < j && globalClass cls)
+            | some k, some (some j) =>
+              k == j || (k < j && globalClass cls) || (v.content && j ≤ k)
             | some _, some none => false
             | some _, none => !v.globalOK && globalClass cls
             | none, _ => false
@@ -119,8 +121,24 @@ def wfRel (args : List String) : String :=
     | _, _ => "BADINPUT"
   | _ => "BADINPUT"
 
+def fwdEq (args : List String) : String :=
+  match args with
+  | [evs, fwd] =>
+    match Ev.parseList evs, Ev.parseList fwd with
+    | some a, some b => if a.map Spec.forwardOf == b then "1" else "0"
+    | _, _ => "BADINPUT"
+  | _ => "BADINPUT"
+
+def measureOp (args : List String) : String :=
+  match args with
+  | [evs] =>
+    match Ev.parseList evs with
+    | some a => let u := Spec.measure a; s!"{u.depth},{u.objects},{u.array},{u.id},{u.markers}"
+    | none => "BADINPUT"
+  | _ => "BADINPUT"
+
 def ops : List (String × (List String → String)) :=
-  [("CBE.ENC", cbeEnc), ("CBE.DEC", cbeDec), ("CANON.EQ", canonEq), ("RULES", rulesOp), ("WF.REL", wfRel)]
+  [("CBE.ENC", cbeEnc), ("CBE.DEC", cbeDec), ("CANON.EQ", canonEq), ("RULES", rulesOp), ("WF.REL", wfRel), ("FWD.EQ", fwdEq), ("MEASURE", measureOp)]
 
 def splitArrow : List String → List String × String
   | [] => ([], "")
